@@ -641,7 +641,9 @@ def huge_params(rng, twopl=True):
     p[dim] = big
     n2 = p.get('n2', p['n1']) if mp != 'sm' else p['n1']
     if mp == 'spa' and dim == 'n3':
-        p['n2'] = rng.randint(big, big + 20)      # every lecturer gets a project
+        # every lecturer gets a project, often two or three
+        p['n2'] = rng.choice([rng.randint(big, big + 20),
+                              rng.randint(2 * big, 3 * big)])
         n2 = p['n2']
     # list lengths: short, or as long as the other side allows (<= 400)
     p['pmax'] = rng.choice([rng.randint(1, min(n2, 6)),
